@@ -187,9 +187,13 @@ enum Cyc {
     /// the same, but the application DROPS the old stream (unread) while the bind request is pending: the request must
     /// not be touched, it resolves with the peer's own answer
     BindOnReusedIdOldDropped,
+    /// peer opens with a window of ONE; the application writes twice (the second write waits for the peer's grant and
+    /// goes out when it comes), then aborts. The peer opens the id again, again with a window of one: the grant it
+    /// sends for the NEW stream must reach the new stream's waiting writer (credit is per incarnation)
+    PeerOpenGrantedThenAbortReopen,
 }
 
-const CYCS: [Cyc; 13] = [
+const CYCS: [Cyc; 14] = [
     Cyc::PeerOpenClean,
     Cyc::PeerOpenLocalAbort,
     Cyc::PeerOpenPeerReset,
@@ -203,6 +207,7 @@ const CYCS: [Cyc; 13] = [
     Cyc::PeerResetReopenHeldReadsLater,
     Cyc::BindOnReusedIdHeldReadsLater,
     Cyc::BindOnReusedIdOldDropped,
+    Cyc::PeerOpenGrantedThenAbortReopen,
 ];
 
 struct B {
@@ -278,6 +283,11 @@ fn exec_b(seq: &[Cyc], render: bool) -> RunOutput {
             }
             Cyc::BindOnReusedIdHeldReadsLater => EndPlan::SeqKeep(vec![Op::Gate(pos as u8), Op::ReadToEof(4), Op::Park]),
             Cyc::BindOnReusedIdOldDropped => EndPlan::SeqKeep(vec![Op::Park]),
+            Cyc::PeerOpenGrantedThenAbortReopen => {
+                // second incarnation (tag + 1 = 0x?e, used by no other variant)
+                plans.insert(tag + 1, EndPlan::SeqKeep(vec![Op::W(1), Op::W(1), Op::Shutdown, Op::ReadToEof(4)]));
+                EndPlan::SeqKeep(vec![Op::W(1), Op::W(1), Op::Drop])
+            }
             Cyc::PeerResetReopenWhileHeld => {
                 // second incarnation (tag + 7 = 0x?f, used by no other variant): an ordinary exchange
                 plans.insert(tag + 7, EndPlan::SeqKeep(vec![Op::W(1), Op::ReadToEof(4), Op::Shutdown]));
@@ -385,6 +395,38 @@ fn exec_b(seq: &[Cyc], render: bool) -> RunOutput {
                     b.w.sim.cancel_task(i);
                     b.w.obs.borrow_mut().end(&format!("s{tag}.a"));
                 }
+                b.settle();
+            }
+            Cyc::PeerOpenGrantedThenAbortReopen => {
+                let pushes_on_f = |got: &[RMsg]| got.iter().filter(|m| matches!(m, RMsg::Frame(RFrame::Push { id: F, .. }))).count();
+                b.raw.send(&RFrame::Connect { id: F, rwnd: 1, port: 1, host: vec![tag] });
+                let got = b.settle();
+                if pushes_on_f(&got) != 1 {
+                    b.v("credit.window-of-one", format!("cycle {pos} ({c:?}): with a window of one exactly one of the two writes may be transmitted before the peer grants more; got {got:?}"));
+                }
+                b.raw.send(&RFrame::Acknowledge { id: F, n: 1 });
+                let got = b.settle();
+                if pushes_on_f(&got) != 1 || !got.iter().any(|m| matches!(m, RMsg::Frame(RFrame::Reset { id: F }))) {
+                    b.v("credit.grant-not-used", format!("cycle {pos} ({c:?}): after Acknowledge(1) the waiting write must go out, and the stream is then aborted (Reset); got {got:?}"));
+                }
+                // the same id again
+                let tag2 = tag + 1;
+                b.raw.send(&RFrame::Connect { id: F, rwnd: 1, port: 1, host: vec![tag2] });
+                let got = b.settle();
+                if !got.iter().any(|m| matches!(m, RMsg::Frame(RFrame::Acknowledge { id: F, n }) if *n == E_RWND)) {
+                    b.v("reuse.not-free", format!("cycle {pos} ({c:?}): Connect on flow {F} after the abort must be acknowledged with rwnd {E_RWND}; got {got:?}"));
+                }
+                if pushes_on_f(&got) != 1 {
+                    b.v("reuse.credit-leak", format!("cycle {pos} ({c:?}): the re-opened flow starts with the window of ITS Connect (one): exactly one of the two writes may be transmitted; got {got:?}"));
+                }
+                b.raw.send(&RFrame::Acknowledge { id: F, n: 1 });
+                let got = b.settle();
+                if pushes_on_f(&got) != 1 || !got.iter().any(|m| matches!(m, RMsg::Frame(RFrame::Finish { id: F }))) {
+                    b.v("reuse.credit-leak", format!("cycle {pos} ({c:?}): the peer's grant for the NEW stream on flow {F} must release its waiting write (then Finish); got {got:?} -- credited to the old incarnation?"));
+                } else if pos > 0 {
+                    b.wit |= W_REUSE_ACKED;
+                }
+                b.raw.send(&RFrame::Finish { id: F });
                 b.settle();
             }
             Cyc::BindOnReusedIdOldDropped => {
@@ -729,7 +771,7 @@ pub fn run_reuse(args: &Args) -> Report {
     let pid = args.id.trim_end_matches('R').to_string();
     let mut rep = Report::new(&pid, &args.tier, "psim", "model_checking");
     let thorough = args.thorough();
-    let reuse = [Cyc::PeerResetReopenWhileHeld, Cyc::LocalResetReopenWhileHeld, Cyc::PeerResetReopenHeldReadsLater, Cyc::BindOnReusedIdHeldReadsLater, Cyc::BindOnReusedIdOldDropped];
+    let reuse = [Cyc::PeerResetReopenWhileHeld, Cyc::LocalResetReopenWhileHeld, Cyc::PeerResetReopenHeldReadsLater, Cyc::BindOnReusedIdHeldReadsLater, Cyc::BindOnReusedIdOldDropped, Cyc::PeerOpenGrantedThenAbortReopen];
     let mut seqs: Vec<Vec<Cyc>> = Vec::new();
     for c in reuse {
         seqs.push(vec![c]);
